@@ -70,7 +70,7 @@ def case_grid(log, nf, order, fh, variation):
 
     def dec(expr, what, key):
         key = _key(key, variation, fh) if order[0] >= 4 else key
-        v = prove_zero(_z(expr), "%s [%s]" % (what, tag))
+        v = E.prove_zero_pt(_z(expr), "%s [%s]" % (what, tag), {"N": Fraction(17, 5)})
         E.decide(log, v, key, replay=(MOD, "replay_grid", dict(rkw, what=key)), sampler=_sampler)
 
     def run():
@@ -227,7 +227,7 @@ def case_slots(log, nf, fh, spec, numeric, blocks=("singlet", "valence", "ns_plu
                 v = prove_zero(SR(QZERO), "%s: %d of %d entries have the zero polynomial as residual" % (label, len(diffs) - len(nz), len(diffs)))
                 E.decide(log, v, key, replay=rk, sampler=_sampler)
             for d in nz[:3]:
-                v = prove_zero(d, label)
+                v = E.prove_zero_pt(d, label, {"N": Fraction(17, 5)})
                 E.decide(log, v, key, replay=rk, sampler=_sampler)
         E.twin(log)
         if stub is not None:
